@@ -1018,8 +1018,17 @@ fn execute_inner(sc: &ReconScenario, keep_log: bool, progress: Arc<AtomicU32>) -
     for case in &sc.cases {
         run_case(&mut ctx, case);
     }
+    let mut violations: Vec<Violation> = ctx.violations.values().cloned().collect();
+    // `WithLenRecognizerDecoder` is the decoder of the typed Recon body inside the length-delimited binary frames of the
+    // agent protocol: what it does under fragmentation, and after a frame that failed, is the subject of C10 as well.
+    let mirrored: Vec<Violation> = violations
+        .iter()
+        .filter(|v| v.property == "C09" && v.sig.contains("WithLenRecognizerDecoder"))
+        .map(|v| Violation { property: "C10".to_string(), rule: v.rule.replacen("C09.", "C10.", 1), sig: v.sig.replacen("C09.", "C10.", 1), detail: v.detail.clone() })
+        .collect();
+    violations.extend(mirrored);
     let mut out = Outcome {
-        violations: ctx.violations.values().cloned().collect(),
+        violations,
         log_hash: ctx.log.hash(),
         log_lines: ctx.log.lines().to_vec(),
         steps: ctx.counters.get("polls").copied().unwrap_or(0),
